@@ -98,8 +98,92 @@ def resGDump (v : VT) (bil : Bool) (w h dw dh : Int) (m : M32 Float32) : String 
 def rszDump (v : VT) (bil : Bool) (w h dw dh : Int) : String :=
   resFDump v bil w h dw dh (M32.resize (Float.ofInt w) (Float.ofInt h) (Float.ofInt dw) (Float.ofInt dh) (Float.sin (-0.0)))
 
+/-- split a list into consecutive groups of six -/
+def sixes {α} : List α → List (List α)
+  | a :: b :: c :: d :: e :: f :: r => [a, b, c, d, e, f] :: sixes r
+  | _ => []
+
+/-- matrices of the op (entries k/8) as exact rationals -/
+def matsQ8 (xs : List Int) : List (M32 Rat) :=
+  (sixes xs).filterMap (fun g => match g with
+    | [a, b, c, d, e, f] => some (⟨(a : Rat) / 8, (b : Rat) / 8, (c : Rat) / 8, (d : Rat) / 8, (e : Rat) / 8, (f : Rat) / 8⟩ : M32 Rat)
+    | _ => none)
+
+/-- `resc`: the map is built by `m = identity; m *= M1; …; m *= Mn` in exact arithmetic (on the 1/8^n grid the doubles are exact) -/
+def resCDump (v : VT) (bil : Bool) (w h dw dh : Int) (n : Nat) (xs : List Int) : String :=
+  let m : M32 Rat := M32.chain (M32.one) (matsQ8 xs)
+  let D : Int := (8 : Int) ^ n
+  let toG (q : Rat) : Int := (q * (D : Rat)).num      -- exact: every entry is a multiple of 1/8^n
+  let rows := resample (P := String) (K := Int)
+    (fun p => let t := pointTokenQ v bil w h p.1 p.2 D; if t == "o" then none else some t)
+    (fun xy => let p := m.apply ((xy.1 : Rat), (xy.2 : Rat)); (toG p.1, toG p.2))
+    (fun _ _ => joinC ((chans v).map (fun _ => showSrc v v.sentinel))) dw.toNat dh.toNat
+  " ".intercalate (rows.map (" ".intercalate ·))
+
 def model (line : String) : String :=
   match words line with
+  | "resc" :: vt :: s :: w :: h :: dw :: dh :: n :: rest =>
+    match VT.parse vt, ints [w, h, dw, dh, n], ints rest with
+    | some v, some [w, h, dw, dh, n], some xs =>
+      if xs.length ≠ 6 * n.toNat then "bad-op" else
+      let d := resCDump v (s == "b") w h dw dh n.toNat xs; d ++ " | " ++ d
+    | _, _, _ => "bad-op"
+  | "resmf" :: vt :: s :: w :: h :: dw :: dh :: n :: rest =>
+    match VT.parse vt, ints [w, h, dw, dh, n], rest.mapM fOfBits with
+    | some v, some [w, h, dw, dh, n], some fs =>
+      if fs.length ≠ 6 * n.toNat then "bad-op" else
+      let m : M32 Float := M32.chain M32.one ((sixes fs).filterMap mOf)
+      let x := resFDump v (s == "b") w h dw dh m
+      showM m ++ " | " ++ x ++ " | " ++ x
+    | _, _, _ => "bad-op"
+  | "mmuleq" :: rest =>
+    match rest.mapM fOfBits with
+    | some fs => match mOf (fs.take 6), mOf (fs.drop 6) with
+      | some a, some b => showM (M32.mulAssign a b)
+      | _, _ => "bad-op"
+    | none => "bad-op"
+  | "mself" :: rest =>
+    match rest.mapM fOfBits with
+    | some fs => match mOf fs with
+      | some a => showM (M32.mulAssign a a)
+      | none => "bad-op"
+    | none => "bad-op"
+  | "mseq" :: n :: rest =>
+    match n.toNat?, rest.mapM fOfBits with
+    | some n, some fs =>
+      if fs.length ≠ 6 * n then "bad-op" else
+      let m : M32 Float := M32.chain M32.one ((sixes fs).filterMap mOf)
+      showM m ++ " " ++ showM (M32.mulAssign m m)
+    | _, _ => "bad-op"
+  | "mpt" :: rest =>
+    match rest.mapM fOfBits with
+    | some fs => match mOf (fs.take 6), fs.drop 6 with
+      | some a, [x, y] => let p := a.apply (x, y); bitsOf p.1 ++ " " ++ bitsOf p.2
+      | _, _ => "bad-op"
+    | none => "bad-op"
+  | ["mpti", a, b, c, d, e, f, x, y] =>
+    match [a, b, c, d, e, f].mapM fOfBits, ints [x, y] with
+    | some fs, some [x, y] => match mOf fs with
+      | some m => let p := m.apply (Float.ofInt x, Float.ofInt y); bitsOf p.1 ++ " " ++ bitsOf p.2 ++ " " ++ bitsOf p.1 ++ " " ++ bitsOf p.2
+      | none => "bad-op"
+    | _, _ => "bad-op"
+  | ["mgenp", k, x, y] =>
+    match fOfBits x, fOfBits y with
+    | some x, some y =>
+      if k == "t" then showM (M32.translate x y) else if k == "s" then showM (M32.scale x y)
+      else if k == "u" then showM (M32.scale x x) else "bad-op"
+    | _, _ => "bad-op"
+  | ["mcr", w, h, r] =>
+    match ints [w, h], fOfBits r with
+    | some [w, h], some r => showM (M32.centerRotate (Float.ofInt w) (Float.ofInt h) r)
+    | _, _ => "bad-op"
+  | "iop" :: k :: rest =>
+    match ints rest with
+    | some [a1, b1, c1, d1, e1, f1, a2, b2, c2, d2, e2, f2] =>
+      let a : M32 Int := ⟨a1, b1, c1, d1, e1, f1⟩; let b : M32 Int := ⟨a2, b2, c2, d2, e2, f2⟩
+      let r := if k == "m" then M32.mul a b else if k == "e" then M32.mulAssign a b else M32.mulAssign a a
+      showInts [r.a, r.b, r.c, r.d, r.e, r.f]
+    | _ => "bad-op"
   | [k, vt, _, w, h, D, ny, nx0, n, step] =>
     match ints [w, h, D, ny, nx0, n, step] with
     | some [w, h, D, ny, nx0, n, step] =>
@@ -265,6 +349,47 @@ def judgeResFloat (vt w h dw dh obs : String) : String :=
       | _ => fail "shape"
     | _, _ => fail "bad-op"
 
+/-- resample_pixels with a map whose entries are integers over `D` (sample points on the 1/D grid, exact): the library loop must
+    equal the direct loop and every destination pixel must satisfy the sampler Spec at `transform(map,(x,y))` -/
+def judgeResGrid (v : VT) (w h dw dh : Int) (m : List Int) (D : Int) (obs : String) : String :=
+  let fail (s : String) := "fail " ++ s
+  match m with
+  | [a, b, c, d, e, f] =>
+    match obs.splitOn " | " with
+    | [l, r] =>
+      if words l ≠ words r then fail "resample-loop" else
+      let toks := words l
+      if toks.length ≠ (dw * dh).toNat then fail "shape" else
+      let sent := joinC ((chans v).map (fun _ => showSrc v v.sentinel))
+      let idx := (irange dh.toNat).flatMap (fun y => (irange dw.toNat).map (fun x => (x, y)))
+      match firstSome (idx.zip toks) (fun (xy, t) =>
+          let nx := a * xy.1 + c * xy.2 + e; let ny := b * xy.1 + d * xy.2 + f
+          -- an untouched destination pixel means the sampler said "outside" for its source point
+          if t == sent ∧ ¬ inDomain w h nx ny D then none else judgePoint v w h nx ny D t) with
+      | some e => fail e | none => "ok"
+    | _ => fail "shape"
+  | _ => fail "bad-op"
+
+/-- exact product of 3x2 matrices given as six rationals -/
+def mulQ6 (m1 m2 : List Rat) : List Rat := match m1, m2 with
+  | [a1, b1, c1, d1, e1, f1], [a2, b2, c2, d2, e2, f2] =>
+    [a1 * a2 + b1 * c2, a1 * b2 + b1 * d2, c1 * a2 + d1 * c2, c1 * b2 + d1 * d2, e1 * a2 + f1 * c2 + e2, e1 * b2 + f1 * d2 + f2]
+  | _, _ => []
+def mulI6 (m1 m2 : List Int) : List Int := match m1, m2 with
+  | [a1, b1, c1, d1, e1, f1], [a2, b2, c2, d2, e2, f2] =>
+    [a1 * a2 + b1 * c2, a1 * b2 + b1 * d2, c1 * a2 + d1 * c2, c1 * b2 + d1 * d2, e1 * a2 + f1 * c2 + e2, e1 * b2 + f1 * d2 + f2]
+  | _, _ => []
+/-- product of matrices with entries k/8, as integers over 8^n: the running product has denominator `Dacc`, the next factor 8 -/
+def prodD8 (ms : List (List Int)) : List Int :=
+  (ms.foldl (fun (acc : List Int × Int) m => match acc.1, m with
+    | [a1, b1, c1, d1, e1, f1], [a2, b2, c2, d2, e2, f2] =>
+      ([a1 * a2 + b1 * c2, a1 * b2 + b1 * d2, c1 * a2 + d1 * c2, c1 * b2 + d1 * d2,
+        e1 * a2 + f1 * c2 + e2 * acc.2, e1 * b2 + f1 * d2 + f2 * acc.2], acc.2 * 8)
+    | _, _ => ([], acc.2)) ([1, 0, 0, 1, 0, 0], 1)).1
+def closeL6 (xs ys : List Rat) (tol : Rat) : Bool := xs.length == ys.length && (xs.zip ys).all (fun (x, y) => closeQ x y tol)
+/-- tolerance for a product of the given matrices: 1e-9 relative to the product of their sizes (1 + sum of |entries|) -/
+def tolOf6 (ms : List (List Rat)) : Rat := (ms.foldl (fun t m => t * (m.foldl (fun a x => a + absQ x) 1)) 1) * (1 / 1000000000)
+
 def judge (op obs : String) : String :=
   let fail (s : String) := "fail " ++ s
   if obs.startsWith "assert" || obs.startsWith "ub:" || obs.startsWith "crash" || obs.startsWith "timeout" || obs.startsWith "harness-gave-up" then
@@ -319,21 +444,44 @@ def judge (op obs : String) : String :=
     | _, _, _ => fail "bad-op"
   | "res" :: vt :: _ :: rest =>
     match VT.parse vt, ints rest with
-    | some v, some [w, h, dw, dh, a, b, c, d, e, f] =>
-      match obs.splitOn " | " with
-      | [l, r] =>
-        if words l ≠ words r then fail "resample-loop" else
-        let toks := words l
-        if toks.length ≠ (dw * dh).toNat then fail "shape" else
-        let sent := joinC ((chans v).map (fun _ => showSrc v v.sentinel))
-        let idx := (irange dh.toNat).flatMap (fun y => (irange dw.toNat).map (fun x => (x, y)))
-        match firstSome (idx.zip toks) (fun (xy, t) =>
-            let nx := a * xy.1 + c * xy.2 + e; let ny := b * xy.1 + d * xy.2 + f
-            -- an untouched destination pixel means the sampler said "outside" for its source point
-            if t == sent ∧ ¬ inDomain w h nx ny 8 then none else judgePoint v w h nx ny 8 t) with
-        | some e => fail e | none => "ok"
-      | _ => fail "shape"
+    | some v, some [w, h, dw, dh, a, b, c, d, e, f] => judgeResGrid v w h dw dh [a, b, c, d, e, f] 8 obs
     | _, _ => fail "bad-op"
+  | "resc" :: vt :: _ :: w :: h :: dw :: dh :: n :: rest =>
+    match VT.parse vt, ints [w, h, dw, dh, n], ints rest with
+    | some v, some [w, h, dw, dh, n], some xs =>
+      -- the Spec's map: the PRODUCT M1 * … * Mn (exact, integers over 8^n), independent of how the code composed it
+      judgeResGrid v w h dw dh (prodD8 (sixes xs)) ((8 : Int) ^ n.toNat) obs
+    | _, _, _ => fail "bad-op"
+  | "resmf" :: vt :: _ :: w :: h :: dw :: dh :: _ :: rest =>
+    match obs.splitOn " | " with
+    | [mm, l, r] =>
+      match rest.mapM fOfBits, (words mm).mapM fOfBits with
+      | some fs, some os => match fs.mapM ratOfFloat, os.mapM ratOfFloat with
+        | some q, some o =>
+          let want := (sixes q).foldl mulQ6 [1, 0, 0, 1, 0, 0]
+          if !(o.length == 6 && closeL6 o want (tolOf6 (sixes q))) then fail "compound-product"
+          else judgeResFloat vt w h dw dh (l ++ " | " ++ r)
+        | _, _ => fail "not-a-value"
+      | _, _ => fail "not-a-value"
+    | _ => fail "shape"
+  | "iop" :: k :: rest =>
+    match ints rest, ints (words obs) with
+    | some [a1, b1, c1, d1, e1, f1, a2, b2, c2, d2, e2, f2], some o =>
+      let a := [a1, b1, c1, d1, e1, f1]; let b := if k == "s" then a else [a2, b2, c2, d2, e2, f2]
+      if o = mulI6 a b then "ok" else fail (if k == "m" then "product" else "compound-product")
+    | _, _ => fail "not-a-value"
+  | ["mcr", _, _, _] =>
+    -- center_rotate is not part of the property's statement: only the correspondence with the model is checked
+    if (words obs).length == 6 then "ok" else fail "shape"
+  | ["mpti", a, b, c, d, e, f, x, y] =>
+    match [a, b, c, d, e, f].mapM fOfBits, ints [x, y], (words obs).mapM fOfBits with
+    | some fs, some [x, y], some os => match fs.mapM ratOfFloat, os.mapM ratOfFloat with
+      | some [a, b, c, d, e, f], some [rx, ry, tx, ty] =>
+        let t := tolOf6 [[a, b, c, d, e, f, (x : Rat), (y : Rat)]]
+        let wx := a * x + c * y + e; let wy := b * x + d * y + f
+        if closeQ rx wx t && closeQ ry wy t && closeQ tx wx t && closeQ ty wy t then "ok" else fail "transform"
+      | _, _ => fail "not-a-value"
+    | _, _, _ => fail "not-a-value"
   | ["resf", vt, _, w, h, dw, dh, _, _, _, _, _, _] => judgeResFloat vt w h dw dh obs
   | ["resg", vt, _, w, h, dw, dh, _, _, _, _, _, _] => judgeResFloat vt w h dw dh obs
   | ["rsz", vt, _, w, h, dw, dh] =>
@@ -372,6 +520,24 @@ def judge (op obs : String) : String :=
         if k == "mmul" then
           let want := mulQ (q.take 6) (q.drop 6)
           if o.length == 6 && closeL o want (tolOf want) then "ok" else fail "product"
+        else if k == "mmuleq" then
+          let want := mulQ (q.take 6) (q.drop 6)
+          if o.length == 6 && closeL o want (tolOf6 [q.take 6, q.drop 6]) then "ok" else fail "compound-product"
+        else if k == "mself" then
+          let want := mulQ q q
+          if o.length == 6 && closeL o want (tolOf6 [q, q]) then "ok" else fail "compound-product-self"
+        else if k == "mseq" then
+          let ms := sixes (q.drop 1)
+          let want := ms.foldl mulQ [1, 0, 0, 1, 0, 0]
+          let t := tolOf6 ms
+          if !(o.length == 12 && closeL (o.take 6) want t) then fail "compound-product"
+          else if !(closeL (o.drop 6) (mulQ want want) (tolOf6 (ms ++ ms))) then fail "compound-product-self"
+          else "ok"
+        else if k == "mpt" then
+          match q, o with
+          | [a, b, c, d, e, f, x, y], [rx, ry] =>
+            if closeQ rx (a * x + c * y + e) (tolOf6 [q]) && closeQ ry (b * x + d * y + f) (tolOf6 [q]) then "ok" else fail "transform"
+          | _, _ => fail "shape"
         else if k == "massoc" then
           if o.length == 12 && closeL (o.take 6) (o.drop 6) (tolOf (o.take 6) * 1000) then "ok" else fail "associative"
         else if k == "minv" then
@@ -394,6 +560,14 @@ def judge (op obs : String) : String :=
       | _, _ => fail ("not-a-value:" ++ (obs.take 40).toString)
     | _, _ =>
       match words op, (words obs).mapM fOfBits with
+      | ["mgenp", g, x, y], some [a, b, c, d, e, f] =>
+        match fOfBits x, fOfBits y with
+        | some x, some y =>
+          if g == "t" then (if a == 1 && b == 0 && c == 0 && d == 1 && e == x && f == y then "ok" else fail "translate")
+          else if g == "s" then (if a == x && b == 0 && c == 0 && d == y && e == 0 && f == 0 then "ok" else fail "scale")
+          else if g == "u" then (if a == x && b == 0 && c == 0 && d == x && e == 0 && f == 0 then "ok" else fail "scale")
+          else fail "bad-op"
+        | _, _ => fail "bad-op"
       | ["mgen", g, x, y], some [a, b, c, d, e, f] =>
         match fOfBits x, fOfBits y with
         | some x, some y =>
